@@ -580,6 +580,56 @@ def extra_checks(prop, rundirs, stats):
     return out
 
 
+
+# ---------------------------------------------------------------------------------------------
+# supporting bounded model checking (Kani / CBMC) for the u64-domain primitives — supports the TIE of C18, decides nothing
+# ---------------------------------------------------------------------------------------------
+KANI_SRC = os.path.join(VERIF, 'kani')
+KANI_FILES = ['src/bitboards.rs', 'src/coordinates.rs', 'src/board_files.rs', 'src/board_ranks.rs']
+
+
+def kani_support(tier, stats):
+    """The Lean model defines trailing_zeros / leading_zeros / count_ones by definition and the correspondence run can only sample
+    2^64 masks.  /verif/kani holds five Kani harnesses showing bit-precisely, for EVERY u64, that BitBoard::last_bit_square /
+    first_bit_square / Iterator::next / count_ones / the operators meet exactly those definitions.  Run at the thorough tier, and
+    at the quick tier whenever the files concerned differ from the ones of the recorded successful run (kani/verified.json).
+    Returns a list of (harness description) failures; never raises."""
+    try:
+        h = hashlib.sha256()
+        for f in KANI_FILES:
+            h.update(open(os.path.join(REPO, f), 'rb').read())
+        cur = h.hexdigest()[:20]
+        rec = {}
+        rp = os.path.join(KANI_SRC, 'verified.json')
+        if os.path.exists(rp):
+            rec = json.load(open(rp))
+        info = dict(source_hash=cur, recorded_hash=rec.get('source_hash'), recorded=rec.get('summary'))
+        if tier != 'thorough' and rec.get('source_hash') == cur and not os.environ.get('VERIF_KANI'):
+            info['ran'] = False
+            info['note'] = 'sources unchanged since the recorded successful run; Kani runs at the thorough tier and whenever these files change'
+            stats['bmc_support'] = info
+            return []
+        d = os.path.join(CACHE, 'kani-shadow')
+        shutil.rmtree(d, ignore_errors=True)
+        shutil.copytree(KANI_SRC, d, ignore=shutil.ignore_patterns('target', 'verified.json'))
+        toml = open(os.path.join(d, 'Cargo.toml')).read().replace('path = "/repo"', f'path = "{REPO}"')
+        open(os.path.join(d, 'Cargo.toml'), 'w').write(toml)
+        t0 = time.time()
+        rc, out = sh('cargo kani 2>&1', cwd=d, timeout=3600, env={'CARGO_TARGET_DIR': os.path.join(CACHE, 'kani-target')})
+        m = re.search(r'Complete - (\d+) successfully verified harnesses, (\d+) failures, (\d+) total', out)
+        info.update(ran=True, wall_s=round(time.time() - t0, 1), summary=m.group(0) if m else None, rc=rc)
+        stats['bmc_support'] = info
+        if m and int(m.group(2)) == 0 and int(m.group(1)) == int(m.group(3)) and rc == 0:
+            if REPO == '/repo' and not SHADOW and rec.get('source_hash') != cur:
+                pass      # the record is committed by hand (python3 lib/checklib.py is never allowed to write tracked files at run time)
+            return []
+        failed = re.findall(r'Checking harness ([\w:]+)[\s\S]*?VERIFICATION:- (\w+)', out)
+        return [f'{n}: {v}' for n, v in failed if v != 'SUCCESSFUL'] or ['cargo kani did not complete: ' + out[-400:]]
+    except Exception as e:       # supporting evidence only: a tooling problem is recorded, not raised
+        stats['bmc_support'] = dict(error=str(e)[:300])
+        return []
+
+
 def run_property(prop, tier, seed):
     t0 = time.time()
     spec = PROPS[prop]
@@ -685,6 +735,9 @@ def run_property(prop, tier, seed):
             except (RuntimeError, subprocess.TimeoutExpired) as e:
                 log(f'[{prop}] corpus run failed: {e}')
         findings += extra_checks(prop, rundirs, stats)
+        if prop == 'C18':
+            for fail in kani_support(tier, stats):
+                findings.append(Finding(prop, 'kani', 0, 'kani ' + fail, 'kani', 'harness', fail, 'VERIFICATION SUCCESSFUL', None, 'corr', []))
 
     # --- verdicts ------------------------------------------------------------------------
     known_open, known_fixed = load_known()
@@ -741,7 +794,7 @@ def run_property(prop, tier, seed):
     )
     if leanchecker is not None:
         cov['leanchecker'] = leanchecker
-    for k in ('transposition_keys', 'distinct_moves_roundtripped', 'invalid_positions', 'key_table', 'corpus_ops', 'rx_patterns_not_found', 'source_drift', 'seeds_run'):
+    for k in ('transposition_keys', 'distinct_moves_roundtripped', 'invalid_positions', 'key_table', 'corpus_ops', 'rx_patterns_not_found', 'source_drift', 'seeds_run', 'bmc_support'):
         if k in stats:
             cov[k] = stats[k]
     if level != 'proof' or obligations == 0:
